@@ -45,5 +45,6 @@ ASSUME \A t \in SweepTuples : PrintT(ToJson([args |-> t, tier |-> "std", sample 
 ASSUME \A t \in Sample : PrintT(ToJson([args |-> t, tier |-> TierOf(t), sample |-> TRUE]))
 ASSUME \A p \in Programs : PrintT(ToJson([program |-> p, tier |-> "std"]))
 ASSUME \A p \in ReentrantPrograms : PrintT(ToJson([program |-> p, tier |-> "std"]))
+ASSUME \A p \in UnboundPrograms : PrintT(ToJson([program |-> p, tier |-> "std"]))
 ASSUME \A p \in FatalPrograms : PrintT(ToJson([program |-> p, tier |-> "fatal"]))
 =============================================================================
